@@ -149,6 +149,20 @@ Theorem C02_nonminimal_varint : forall g s idx m a c ta num v kt kv kt' kv' x, n
   ref_decode (S g) s idx (a ++ (wide kt (num * 8) ++ wide kv v) ++ c) x =
   ref_decode (S g) s idx (a ++ (wide kt' (num * 8) ++ wide kv' v) ++ c) x.
 Proof. exact nonminimal_varint_same. Qed.
+(* integer narrowing: two varint records of one known int32 / uint32 / sint32 / enum field whose varints agree modulo 2^32
+   (any spelling each) are interchangeable anywhere in the input - zig-zag and the sign apply after narrowing *)
+Theorem C02_narrow32_records : forall g s idx m a c ta num slot f v1 v2 kt kv kt' kv' x, nth_error s idx = Some m -> bytes_ok a -> tokens a = Some ta ->
+  valid_number num = true -> find_field m num = Some (slot, f) -> f_custom f = CNone ->
+  (fty f = TEnum \/ exists k, fty f = TScalar k /\ narrow32 k = true) ->
+  0 <= v1 < 2 ^ 64 -> 0 <= v2 < 2 ^ 64 -> v1 mod 2 ^ 32 = v2 mod 2 ^ 32 ->
+  (1 <= kt <= 10)%nat -> num * 8 < 128 ^ Z.of_nat kt -> (1 <= kv <= 10)%nat -> v1 < 128 ^ Z.of_nat kv ->
+  (1 <= kt' <= 10)%nat -> num * 8 < 128 ^ Z.of_nat kt' -> (1 <= kv' <= 10)%nat -> v2 < 128 ^ Z.of_nat kv' ->
+  ref_decode (S g) s idx (a ++ (wide kt (num * 8) ++ wide kv v1) ++ c) x =
+  ref_decode (S g) s idx (a ++ (wide kt' (num * 8) ++ wide kv' v2) ++ c) x.
+Proof. exact narrow32_records_same. Qed.
+Example C02_narrow32_examples : spec_conv KSint32 (2 ^ 32 + 2) = 1 /\ spec_conv KSint32 2 = 1 /\ spec_conv KInt32 (2 ^ 40 + 2 ^ 32 - 1) = -1 /\
+  spec_conv KUint32 (2 ^ 63 + 7) = 7 /\ (2 ^ 32 + 2) mod 2 ^ 32 = 2 mod 2 ^ 32.
+Proof. vm_compute. repeat split; reflexivity. Qed.
 (* the k-group spelling with the minimal k is the reference encoder's, and wider spellings are different bytes *)
 Example C02_wide_examples : wide 1 1 = spec_varint 1 /\ wide 2 300 = spec_varint 300 /\ wide 3 1 = [129; 128; 0] /\ wide 10 1 <> spec_varint 1 /\
   spec_parse_varint (wide 10 1) = Some (1, 10%nat) /\ spec_parse_varint (wide 5 300 ++ [7]) = Some (300, 5%nat).
@@ -184,4 +198,5 @@ Print Assumptions C02_packed_unpacked_reference.
 Print Assumptions C02_packed_unpacked_unmarshal.
 Print Assumptions C02_packed_split.
 Print Assumptions C02_same_meaning_records.
+Print Assumptions C02_narrow32_records.
 Print Assumptions C02_nonminimal_varint.
